@@ -126,6 +126,8 @@ class Check:
         known = load_known(self.prop)
         self.known_open = [k for k in known if k.get('status') == 'open']
         parts = self.parts()
+        if os.environ.get('VERIF_DEV_PARTS'):     # development only: never set by a registered command; evidence is not written
+            parts = [p for p in parts if os.environ['VERIF_DEV_PARTS'] in p.name]
         evidence_parts = []
         violations = []; inconclusive = []; known_hits = {}
         total_paths = 0; total_queries = 0; total_solver_time = 0.0; total_oblig = 0
@@ -156,7 +158,7 @@ class Check:
         for part in parts:
             t = time.time()
             cap = part.time_cap or (900 if self.tier == 'quick' else 5400)
-            res = explore(part.harness(self), interp=self.I, time_cap=cap, vcap=part.vcap, verbose=bool(os.environ.get('VERIF_VERBOSE')),
+            res = explore(part.harness(self), interp=self.I, time_cap=cap, vcap=part.vcap, verbose=bool(os.environ.get('VERIF_VERBOSE')), isolate=getattr(part, 'isolate', False),
                           classify=(lambda v, part=part: part.attribute(self, v, active_known)))
             for k, n in res.known.items(): known_hits[k] = known_hits.get(k, 0) + n
             total_paths += res.paths; total_queries += res.solver_calls; total_solver_time += res.solver_time
@@ -227,6 +229,7 @@ class Check:
         return self._parts
 
     def write_evidence(self, detail, paths, queries, samples, exhaustive, nviol, fn_hits, model_hits, tv, inconclusive, known_hits, solver_time=0.0, oblig=0):
+        if os.environ.get('VERIF_DEV_PARTS'): return
         os.makedirs(EVID, exist_ok=True)
         enc = sorted(fn_hits.items(), key=lambda kv: -kv[1])
         cov = {
